@@ -239,7 +239,19 @@ def scope_completeness(ctx, R):
         if p in covered or p not in ctx.fx.fns:
             continue
         extra += 1
-        analyse(ctx, R, p, label='%s [no assumptions]' % p, definite_only=True)
+        # a further method on a parse result's header type is judged, like the listed accessors, on values the parsers return (INV2 / INV1)
+        self_ty = tys.strip_lifetimes(f.get('impl_self') or '')
+        takes_self = bool(f.get('inputs')) and 'Header' in str(f['inputs'][0])
+        if takes_self and self_ty == tys.strip_lifetimes(tables.V2_HEADER):
+            s0 = P(ctx, p, 0)
+            for var in tables.FAMILY_SIZE:
+                analyse(ctx, R, p, label='%s [%s]' % (p, var), assume=inv.inv2_atoms(('field', s0, 'header'), ('field', s0, 'addresses'), var), definite_only=True)
+        elif takes_self and self_ty == tys.strip_lifetimes(tables.V1_HEADER):
+            s0 = P(ctx, p, 0)
+            for var in ('Tcp4', 'Tcp6', 'Unknown'):
+                analyse(ctx, R, p, label='%s [%s]' % (p, var), assume=inv1_atoms(('field', s0, 'header'), ('field', s0, 'addresses'), var), definite_only=True)
+        else:
+            analyse(ctx, R, p, label='%s [no assumptions]' % p, definite_only=True)
     R.inst('C03.S', 'scope-completeness', True, expected='every hand-written fn of the in-scope modules analysed', found='%d functions, %d analysed on their own' % (n, extra), nontrivial=False)
     return 0
 
